@@ -210,7 +210,10 @@ def judgeCase (c : Case) : M Unit := do
   let prModel : Option Bool :=
     if c.form == 1 then certify (prOrigDim (approxIneq R)) (prOrigSystem n (approxIneq R))
     else certify (prDim (approxIneq c.b) (approxIneq c.a)) (prSystem n (approxIneq c.b) (approxIneq c.a))
-  IO.println s!"caseinfo {c.ln} kind={c.kind} form={c.form} n={n} tmpl={c.tmpl} closed={b2s closed} empty={b2s emptyR} dec={ob2s dec} exists={ob2s exists?} rows={R.length} gens={c.gens.length} guard_entailed={guardEntailed} pr_model={ob2s prModel} verdicts={vs}"
+  -- verdict of the model of the MS encoding on the closure: by `C18.termination_test_MS_iff` (sound AND complete)
+  -- it decides "an affine ranking function of the closure of the relation exists" (read by checks/c18_complete.py)
+  let msModel : Option Bool := certify (msDim n (approxIneq R)) (msSystem n (approxIneq R))
+  IO.println s!"caseinfo {c.ln} kind={c.kind} form={c.form} n={n} tmpl={c.tmpl} closed={b2s closed} empty={b2s emptyR} dec={ob2s dec} exists={ob2s exists?} rows={R.length} gens={c.gens.length} guard_entailed={guardEntailed} pr_model={ob2s prModel} ms_model={ob2s msModel} verdicts={vs}"
 
 def main (_args : List String) : IO UInt32 := do
   let stdin ← IO.getStdin
